@@ -37,6 +37,9 @@ CHECKS = {
  "C15": dict(engine="A+F", technique="property-based robustness testing with a deterministic step budget (non-termination oracle) over generated grammars, arbitrary Unicode inputs and misbehaving custom lexers; libFuzzer campaign in the thorough tier",
    text="Bounded random exploration: every grammar family (incl. cyclic / empty-ambiguous for GLR, multi-byte tokens > 50 bytes, LR grammars whose conflicts are resolved by meta-data) x arbitrary Unicode / control-character strings and character-level mutations x {real StringLexer, four custom lexers ignoring the expected set}; parse must return Ok or Err under catch_unwind within a step budget counted in the harness's table/recogniser adapters (no wall clock). Debug assertions and overflow checks on.",
    note="Trusted: every loop iteration of both parsers calls the counted adapters (read from the source); budgets far above legitimate work for the bounded input sizes; one recorded finding (LR reduction loop on non-LR grammars forced by disambiguation) keyed on an exact signature."),
+ "C16": dict(engine="A+F", technique="property-based robustness testing / grammar-aware mutation fuzzing of the compiler (generated valid texts, dictionary-based token and character mutations, repository grammars as seeds) under catch_unwind; libFuzzer campaign in the thorough tier",
+   text="Bounded random exploration: grammar texts over every construct of the grammar language, repository grammars and raw strings, mutated with a 100-entry dictionary (unimplemented operators, groups, reserved names, keywords, dotted names, huge integers, broken literals), x {LR,GLR} x table types x prefer-shift settings x builder type x table layout x lexer type x dot; each text runs through the real Settings::process_grammar (real files in a scratch directory: grammar parsing, table construction, type inference, code and actions generation, dot export) and through the table hook; the result must be Ok or a non-empty error, never a panic.",
+   note="Trusted: panics are observed through a panic hook + catch_unwind; signatures are file + source line text + normalised message; two recorded findings (integer constant unwrap) keyed on exact signatures; compile time is not bounded by this check (wall-clock watchdog => inconclusive)."),
 }
 ALL = ["C%02d" % i for i in range(1, 19)]
 
